@@ -65,6 +65,9 @@ N_HYP = {"quick": 10, "thorough": 80}         # per worker, random longer histor
 # excluded_fill_var_rec_unchecked) so that the enumeration can continue past that one shallow defect.
 EXCLUDE_FILL_VAR_REC_UNCHECKED = os.environ.get("C14_EXCLUDE_FILL_VAR_REC", "") not in ("", "0")
 
+MAX_CRASH_FALLBACKS = 2      # per worker: unit-by-unit re-runs of a batched case that crashed / hung / mismatched
+STOP_AFTER_FAILING_CASES = 25  # per worker: a red tree does not need the rest of the enumeration (exhaustive stays false)
+
 PATH = "t.nc"
 X = 4
 Y = 4
@@ -704,8 +707,9 @@ def run_case(ctx, case):
             return no_verdict(ctx, "pool did not start: %s" % e.stderr_tail[-300:])
         sel = case.get("probes", "all")
         names = [u.name for u in UNITS] if sel == "all" else [u.name for u in UNITS if u.coll] if sel == "coll" else list(sel)
-        if len(names) <= 1:
+        if len(names) <= 1 or ctx.stats["crash_fallbacks"] >= MAX_CRASH_FALLBACKS:
             raise
+        ctx.stats["crash_fallbacks"] += 1
         out = []
         for nm in [None] + names:
             sub = dict(case)
@@ -836,7 +840,11 @@ def campaign(ctx):
     # k=2 pools busy-wait: only every second worker takes part in the 2-rank parts so that ranks are not oversubscribed
     half = [w for w in range(ctx.nworkers) if w % 2 == 0]
     counters = {}
+    nfailing = 0
+    stopped = False
     for case in cases:
+        if stopped:
+            break
         team = half if case["k"] > 1 else list(range(ctx.nworkers))
         i = counters.get(case["part"], 0)
         counters[case["part"]] = i + 1
@@ -868,6 +876,11 @@ def campaign(ctx):
                 ctx.excluded_known += 1
             else:
                 real.append(p)
+        if real:
+            nfailing += 1
+            if nfailing >= STOP_AFTER_FAILING_CASES:
+                ctx.notes.append("worker %d stopped the enumeration after %d failing cases" % (ctx.widx, nfailing))
+                stopped = True
         for p in real:
             sig = p.get("sig") or {}
             key = (p.get("kind"), sig.get("call"), sig.get("unit"), sig.get("rc"), sig.get("func"))
